@@ -463,7 +463,10 @@ class Check:
         cov = dict(self.cov)
         if self.proof:
             cov["obligations"] = self.proof["obligations"]
-            cov["discharged"] = self.proof["discharged"]
+            if self.proof["discharged"] > 0:
+                cov["discharged"] = self.proof["discharged"]
+            else:  # schema: `discharged` must be >= 1 when present; a run with no theorem accepted says so explicitly
+                cov["discharged_none"] = True
             cov["checker_cmd"] = self.proof["checker_cmd"]
             cov["theorems"] = self.proof["theorems"]
         tb = [
